@@ -3,8 +3,9 @@
 # (demo passes clean, fails with the patch, pinned suite still passes), then store it as /verif/seeded/<Cxx>-<mk>/
 set -u
 ID=$1; MK=$2; ROUND=${3:-1}
-if [ "$ROUND" = "2" ]; then WT=/tmp/wt2/$ID; OUT=/tmp/out2-$ID/$MK; DST=/verif/seeded/$ID-r2$MK; else WT=/tmp/wt/$ID; OUT=/tmp/out-$ID/$MK; DST=/verif/seeded/$ID-$MK; fi
-[ -d "$WT" ] || git -C /repo worktree add --detach "$WT" fd6dda3 -q
+BASE=fd6dda3
+if [ "$ROUND" = "3" ]; then WT=/tmp/wt3/$ID; OUT=/tmp/out3-$ID/$MK; DST=/verif/seeded/$ID-r3$MK; BASE=367d150; elif [ "$ROUND" = "2" ]; then WT=/tmp/wt2/$ID; OUT=/tmp/out2-$ID/$MK; DST=/verif/seeded/$ID-r2$MK; else WT=/tmp/wt/$ID; OUT=/tmp/out-$ID/$MK; DST=/verif/seeded/$ID-$MK; fi
+[ -d "$WT" ] || git -C /repo worktree add --detach "$WT" $BASE -q
 git -C "$WT" checkout -q -- . ; git -C "$WT" clean -fdq
 DEMO=$(ls $OUT/demo.py $OUT/test_demo.py 2>/dev/null | head -1)
 run_demo(){ nb=$(mktemp -d); if [[ "$DEMO" == *test_demo.py ]]; then (cd $WT && PYTHONPATH=$WT NUMBA_CACHE_DIR=$nb timeout 1500 /venv/bin/python -m pytest -q -p no:cacheprovider "$DEMO" >$1 2>&1); else (cd $WT && PYTHONPATH=$WT NUMBA_CACHE_DIR=$nb timeout 1500 /venv/bin/python "$DEMO" >$1 2>&1); fi; rc=$?; rm -rf $nb; return $rc; }
@@ -18,7 +19,7 @@ cp $OUT/patch.diff $DST/patch.diff; cp $DEMO $DST/; cp $OUT/notes.md $DST/notes.
 tail -c 2000 $DST/demo_clean.log > $DST/demo_clean.tail; tail -c 2000 $DST/demo_patched.log > $DST/demo_patched.tail; rm -f $DST/demo_clean.log $DST/demo_patched.log
 python3 - <<PY
 import json
-json.dump({"property":"$ID","variant":"$MK","round":$ROUND,"base_commit":"fd6dda3","source":"independent sub-agent given only the property text and a scratch worktree",
+json.dump({"property":"$ID","variant":"$MK","round":$ROUND,"base_commit":"$BASE","source":"independent sub-agent given only the property text and a scratch worktree",
  "demo":"$(basename $DEMO)","demo_exit_clean":$rc_clean,"demo_exit_patched":$rc_pat,"suite_with_patch_ok":$rc_suite==0,
  "suite_summary":open("$DST/suite_patched.log").read().splitlines()[0] if open("$DST/suite_patched.log").read().strip() else "",
  "confirmed": ($rc_clean==0 and $rc_pat!=0 and $rc_suite==0),
